@@ -94,6 +94,21 @@ func (p *Program) intWidth(t types.Type) (bits int, unsigned, ok bool) {
 func constBig(info *types.Info, e ast.Expr) (*big.Int, bool) {
 	tv, ok := info.Types[e]
 	if !ok || tv.Value == nil {
+		// synthetic literals of derived facts carry no type information
+		switch x := ast.Unparen(e).(type) {
+		case *ast.BasicLit:
+			if x.Kind == token.INT {
+				if bi, okP := new(big.Int).SetString(x.Value, 0); okP {
+					return bi, true
+				}
+			}
+		case *ast.UnaryExpr:
+			if lit, isLit := x.X.(*ast.BasicLit); isLit && x.Op == token.SUB && lit.Kind == token.INT {
+				if bi, okP := new(big.Int).SetString(lit.Value, 0); okP {
+					return bi.Neg(bi), true
+				}
+			}
+		}
 		return nil, false
 	}
 	v := constant.ToInt(tv.Value)
@@ -128,6 +143,23 @@ func (p *Program) operandInterval(g *Graph, fi *FuncInfo, f Facts, e ast.Expr) (
 			}
 		}
 	}
+	// x & m: when an operand is known non-negative the result lies between 0 and that operand's upper bound
+	if be, ok := e.(*ast.BinaryExpr); ok && be.Op == token.AND {
+		var best ival
+		bestWhy := ""
+		for _, side := range []ast.Expr{be.X, be.Y} {
+			si, sw := p.operandInterval(g, fi, f, side)
+			if si.lo == nil || si.lo.Sign() < 0 {
+				continue
+			}
+			if best.lo == nil || si.hi.Cmp(best.hi) < 0 {
+				best, bestWhy = ival{big.NewInt(0), si.hi}, "masked with "+exprStr(side)+" ("+sw+")"
+			}
+		}
+		if best.lo != nil {
+			return best, bestWhy
+		}
+	}
 	t := info.TypeOf(e)
 	bits, uns, ok := p.intWidth(t)
 	if !ok {
@@ -135,6 +167,9 @@ func (p *Program) operandInterval(g *Graph, fi *FuncInfo, f Facts, e ast.Expr) (
 	}
 	iv := typeRange(bits, uns)
 	why := "type " + t.String()
+	if c, isC := constBig(info, e); isC {
+		return ival{c, c}, "constant"
+	}
 	// value produced by strconv.ParseInt(_, _, k) / ParseUint: fits k bits
 	if id, isId := e.(*ast.Ident); isId {
 		ast.Inspect(fi.Decl.Body, func(x ast.Node) bool {
@@ -352,6 +387,12 @@ func c02r1(p *Program, r *Report) {
 			if !okF || f.dead {
 				r.OK(c, construct, "unreachable under this build")
 				return true
+			}
+			if os.Getenv("DBGC02") != "" && strings.Contains(exprStr(arg), "mask") {
+				fmt.Println("DBGC02 facts", p.Pos(c), f.m, "pend", len(f.pend))
+				for k := range f.pend {
+					fmt.Println("   pend", k)
+				}
 			}
 			iv, why := p.operandInterval(g, fi, f, arg)
 			r.Check(iv.lo != nil && iv.within(acc), c, construct, "operand in "+iv.String()+" ("+why+") fits "+acc.String(),
